@@ -41,7 +41,10 @@ Put(f, k, v) == [x \in DOMAIN f \cup {k} |-> IF x = k THEN v ELSE f[x]]
 Del(f, k) == [x \in DOMAIN f \ {k} |-> f[x]]
 Flag(cond, why) == IF cond THEN bad ELSE bad \cup {<<l, why>>}
 
-Reset == Ev("Reset") /\ mws' = EmptyFn /\ ref' = EmptyFn /\ cfgfp' = EmptyFn /\ gens' = EmptyFn
+\* keep = TRUE: the next segment uses the same named configurations and probe suite; the references stay, so equal
+\* abstract states reached by DIFFERENT histories are compared with each other too
+Keep == "keep" \in DOMAIN Trace[l] /\ Trace[l].keep
+Reset == Ev("Reset") /\ mws' = EmptyFn /\ ref' = (IF Keep THEN ref ELSE EmptyFn) /\ cfgfp' = EmptyFn /\ gens' = EmptyFn
          /\ stats' = [stats EXCEPT !.segments = @ + 1,
                                    !.weak = @ + Cardinality({p \in (DOMAIN ref) \X (DOMAIN ref) : p[1] # p[2] /\ ref[p[1]] = ref[p[2]]})]
          /\ bad' = IF RequireDistinct
